@@ -11,6 +11,7 @@ import WB.Lemmas.C01Fourier
 import WB.Lemmas.C01Mirror
 import WB.Lemmas.C01Sqrt
 import WB.Lemmas.C01DFT
+import WB.Lemmas.C01Excl
 
 namespace WB.C01
 
@@ -130,6 +131,60 @@ theorem placement_is_bijection (mp : Mesh) (h1 : 0 < mp.1) (h2 : 0 < mp.2.1) (h3
       ((0, 0, 0) : Vec3) ∈ slots := by
   obtain ⟨a, b, c, d⟩ := placeK_ok mp h1 h2 h3 ks slots h
   exact ⟨a, b, by rw [c, length_gridPoints], d⟩
+
+/-! ## exclude_zeros (last step of `do_ws_dist`) -/
+
+/-- `exclude_zeros` keeps exactly the R vectors at which some element of some matrix is big (`abs(x) > tolerance`),
+    with their blocks unchanged. -/
+theorem exclude_zeros_keeps_exactly {K : Type} (big : K → Bool) (blocks : List (Vec3 × List K)) (b : Vec3 × List K) :
+    b ∈ excludeZeros big blocks ↔ b ∈ blocks ∧ ∃ x ∈ b.2, big x = true :=
+  mem_excludeZeros big blocks b
+
+/-- Every k-space sum `Σ_R χ(R)·X_j(R)` (any character, any element index `j`) splits into the sum over the kept R
+    vectors plus the sum over the dropped ones, and every element of a dropped block is not big; in particular, when
+    only exact zeros are "not big", removing the blocks changes NO k-space sum — the round trip survives `exclude_zeros`.
+    (With the code's tolerance the change is bounded by `tolerance ·` number of dropped blocks.) -/
+theorem exclude_zeros_preserves_sums {K : Type} [Field K] (big : K → Bool) (blocks : List (Vec3 × List K))
+    (χ : Vec3 → K) (j : Nat) :
+    (sumK (blocks.map fun b => χ b.1 * b.2.getD j 0)
+      = sumK ((excludeZeros big blocks).map fun b => χ b.1 * b.2.getD j 0)
+        + sumK ((blocks.filter fun b => !(b.2.any big)).map fun b => χ b.1 * b.2.getD j 0)) ∧
+    (∀ b ∈ blocks.filter (fun b => !(b.2.any big)), ∀ x ∈ b.2, big x = false) ∧
+    ((∀ x, big x = false → x = 0) →
+      sumK (blocks.map fun b => χ b.1 * b.2.getD j 0)
+        = sumK ((excludeZeros big blocks).map fun b => χ b.1 * b.2.getD j 0)) := by
+  have hsplit := sumK_excludeZeros big blocks (fun b => χ b.1 * b.2.getD j 0)
+  have hdrop : ∀ b ∈ blocks.filter (fun b => !(b.2.any big)), ∀ x ∈ b.2, big x = false := by
+    intro b hb x hx
+    have h := (List.mem_filter.mp hb).2
+    simp only [Bool.not_eq_true', List.any_eq_false] at h
+    simpa using h x hx
+  refine ⟨hsplit, hdrop, ?_⟩
+  intro hz
+  rw [hsplit]
+  have : sumK ((blocks.filter fun b => !(b.2.any big)).map fun b => χ b.1 * b.2.getD j 0) = 0 := by
+    rw [sumK_map_congr _ _ (fun _ => (0 : K))]
+    · exact sumK_map_zero _
+    · intro b hb
+      have h0 : b.2.getD j 0 = 0 := by
+        rw [List.getD_eq_getElem?_getD]
+        cases hget : b.2[j]? with
+        | none => rfl
+        | some x =>
+          have hx : x ∈ b.2 := List.mem_of_getElem? hget
+          simpa using hz x (hdrop b hb x hx)
+      rw [h0, mul_zero]
+  rw [this, add_zero]
+
+/-- The rule "the largest element (numpy's real-part-first ordering of complex numbers) exceeds the tolerance" is NOT
+    `exclude_zeros`: a lone hopping `t = −1` at `R = ±e₁` (or a purely imaginary block) is dropped although `|t| = 1`,
+    and the k-space sum at Γ changes from `1 − 1 − 1 = −1` to `1`. -/
+theorem max_without_abs_drops_nonzero_blocks :
+    let blocks : List (Vec3 × List GRat) :=
+      [((0, 0, 0), [⟨1, 0⟩]), ((1, 0, 0), [⟨-1, 0⟩]), ((-1, 0, 0), [⟨-1, 0⟩]), ((0, 1, 0), [⟨0, 1 / 2⟩]), ((0, -1, 0), [⟨0, -1 / 2⟩])]
+    (excludeZeros (bigger (1 / 100000000)) blocks).map (·.1) = [(0, 0, 0), (1, 0, 0), (-1, 0, 0), (0, 1, 0), (0, -1, 0)] ∧
+    (excludeZerosLexMax (1 / 100000000) blocks).map (·.1) = [(0, 0, 0)] := by
+  decide +kernel
 
 /-! ## the tolerance test -/
 
